@@ -13,10 +13,11 @@ LEVEL_TEXT = ("Theorems in Lean: each constructor of the model refuses exactly t
               "fails exactly when some reference (also inside embedded copies) has no earlier sub-recipe root, structural validity is preserved by scaling "
               "for every factor, and following references terminates by a structural measure; the model's constructors and validity check are tied to "
               "recipe.py by comparing outcome/exception class on valid and invalid generated node combinations.")
-LEVEL_NOTE = ("Trusted: Lean kernel; model as far as correspondence exercises it. Validity of *compile outputs* (compile_valid) is established per "
-              "generated description by the validity walker of the oracle and by the compiler correspondence, not yet by a theorem; Python values cannot be "
-              "cyclic because the dataclasses are frozen (runtime fact, not modelled).")
-LEAN_MODULES = ["RecipeGrid.Props.C08"]
+LEVEL_NOTE = ("Trusted: Lean kernel; model as far as correspondence exercises it. For the model of compile it is a theorem (Props/C08b) that the inlining pass "
+              "never fails (list.remove always finds the definition, no constructor check fires), that the result passes the Recipe check and is "
+              "structurally valid (every embedded copy IS an earlier root), and that every scaling of it is valid: compile_no_internal, foldAll_ok, "
+              "compile_validS, compile_scale_ok. Python values cannot be cyclic because the dataclasses are frozen (runtime fact, not modelled).")
+LEAN_MODULES = ["RecipeGrid.Props.C08", "RecipeGrid.Props.C08b"]
 SOURCES = ["recipe_grid/recipe.py", "recipe_grid/compiler.py"]
 RULE = ("valid multi-block recipes from the generators and compiled descriptions, their scalings, and invalid combinations (multi-output sub recipe as child, "
         "zero outputs, output index out of range, reference to a non-root / later / foreign sub recipe); non-trivial = contains a reference or is invalid; "
